@@ -151,6 +151,16 @@ func Corpus() []*Schema {
 				// … and two levels down
 				Nested: []M{{Name: "Deep", Fields: []F{{"v", 1, "int32", "opt"}}, Ext: []F{{"x_deep", 103, "sint32", "ext:Base"}, {"x_deep_b", 104, "bytes", "ext:Base"}}}}}}}},
 		FileExt: []F{{"x_top", 100, "int64", "ext:Base"}, {"x_top_msg", 102, "msg:Outer", "ext:Base"}}})
+	// repeated proto2 extensions: every kind, next to a singular one and a list of the extendee itself (finding B32)
+	extrep := &Schema{ID: "extrep", Syntax: "proto2", Enums: []E{color}}
+	var rxs []F
+	for i, k := range ScalarKinds {
+		rxs = append(rxs, F{Name: "x_" + k + "_rep", Num: int32(100 + i), Kind: k, Card: "ext:Base"})
+	}
+	rxs = append(rxs, F{"x_enum_rep", 120, "enum:Color", "ext:Base"}, F{"x_msg_rep", 121, "msg:H", "ext:Base"}, F{"x_one", 122, "int32", "ext:Base"}, F{"x_self_rep", 123, "msg:Base", "ext:Base"})
+	extrep.Messages = []M{{Name: "Base", Fields: []F{{"id", 1, "int32", "opt"}}, Ranges: [][2]int32{{100, 200}}},
+		{Name: "H", Fields: []F{{"note", 1, "string", "opt"}}, Ext: rxs}}
+	cs = append(cs, extrep)
 	// two messages whose short names coincide when lower-cased: one output file name for both with
 	// filepermessage=true (open finding B15)
 	cs = append(cs, &Schema{ID: "samename", Syntax: "proto3", Messages: []M{{Name: "Outer", Fields: []F{{"a", 1, "int32", "opt"}},
